@@ -15,7 +15,9 @@
  R7 call-monotone: every call / stop adjustment of a contest-level bound is a monotone map of that bound (a clamp), evaluated on
     the 7 regions around {-0.005, 0, +0.005} for every call code and stop flag, so nested levels stay nested (F29);
  R8 epsilon-guard: with fewer than two non-zero estimated contest effects (n = 0 and n = 1 are evaluated) the sampler of contest
-    effects returns before it takes a variance (ddof=1) / correlation, which would be NaN and end the run in LinAlgError (F28).
+    effects returns before it takes a variance (ddof=1) / correlation, which would be NaN and end the run in LinAlgError (F28);
+ R9 finite-margin: every quotient by a group turnout total in the two aggregate functions is nan_to_num(x / total) (shared with
+    C11.R3): a group with zero predicted turnout has margin 0, not NaN.
 Not decided: 0 <= low rank <= high rank <= 1 for all (alpha, B >= 2) and numeric ranges - arithmetic over unbounded domains
 (hand proof in DESIGN.md appendix A); here only that the code still is the formula that proof is about.
 """
@@ -306,6 +308,11 @@ def check(ctx):
     _bound_denominators(ctx, cls)
     _call_monotone(ctx)
     _epsilon_guard(ctx, cls)
+    # R9: "the predicted normalised margin in [-1, 1]" and "lower < prediction < upper" need the prediction to be a number
+    from .c01 import model_builder
+    from .c11 import zero_turnout_quotients
+    zero_turnout_quotients(ctx, model_builder(ctx), "C06.R9.finite-margin",
+                           "a group whose predicted turnout is 0 gets a NaN predicted margin - not in [-1, 1], and not between its bounds")
 
     # ---- quantile formulas as written in _get_quantiles --------------------------------------------------
     qf = ctx.fn(BM, "BootstrapElectionModel._get_quantiles")
